@@ -425,3 +425,108 @@ TRUSTED_BASE_COMMON = [
     "wire format: hand-written S-expression writers/readers (Rust harness conv.rs, OCaml conv.ml)",
     "not modelled: pest, clap, walkdir, petgraph, regex, threadpool, std I/O, process management, rustc",
 ]
+
+
+# ------------------------------------------------------------------ S-expressions and shrinking
+
+def sx_parse(s):
+    pos = 0
+    n = len(s)
+
+    def skip():
+        nonlocal pos
+        while pos < n and s[pos] in " \t\r\n":
+            pos += 1
+
+    def expr():
+        nonlocal pos
+        skip()
+        if pos >= n:
+            raise ValueError("eof")
+        c = s[pos]
+        if c == "(":
+            pos += 1
+            items = []
+            while True:
+                skip()
+                if pos >= n:
+                    raise ValueError("unclosed")
+                if s[pos] == ")":
+                    pos += 1
+                    return items
+                items.append(expr())
+        if c == '"':
+            start = pos
+            pos += 1
+            while pos < n and s[pos] != '"':
+                if s[pos] == "\\":
+                    pos += 1
+                pos += 1
+            pos += 1
+            return s[start:pos]
+        start = pos
+        while pos < n and s[pos] not in ' \t\r\n()"':
+            pos += 1
+        return s[start:pos]
+
+    e = expr()
+    skip()
+    if pos != n:
+        raise ValueError("trailing")
+    return e
+
+
+def sx_print(e):
+    if isinstance(e, list):
+        return "(" + " ".join(sx_print(x) for x in e) + ")"
+    return e
+
+
+def _sx_candidates(e):
+    """Single-step reductions of an S-expression: replace a list node by one of its list children,
+    or delete one element of a list with more than two elements."""
+    out = []
+
+    def walk(node, rebuild):
+        if not isinstance(node, list):
+            return
+        for i, c in enumerate(node):
+            if isinstance(c, list):
+                out.append(rebuild(c))
+        if len(node) > 2:
+            for i in range(1, len(node)):
+                out.append(rebuild(node[:i] + node[i + 1:]))
+        for i, c in enumerate(node):
+            if isinstance(c, list):
+                walk(c, lambda new, i=i, node=node, rebuild=rebuild: rebuild(node[:i] + [new] + node[i + 1:]))
+
+    walk(e, lambda x: x)
+    return out
+
+
+def shrink_case(op, inp, still_fails, max_rounds=25, max_cands=400):
+    """Greedy shrinking of a failing wire-format input.  still_fails(list of inputs) -> list of bool
+    (evaluated in one batch).  Returns the smallest input found that still fails."""
+    try:
+        cur = sx_parse(inp)
+    except ValueError:
+        return inp
+    for _ in range(max_rounds):
+        cands = _sx_candidates(cur)
+        seen = set()
+        texts = []
+        for c in cands:
+            t = sx_print(c)
+            if t not in seen and len(t) < len(sx_print(cur)):
+                seen.add(t)
+                texts.append(t)
+        texts.sort(key=len)
+        texts = texts[:max_cands]
+        if not texts:
+            break
+        res = still_fails(texts)
+        winners = [t for t, r in zip(texts, res) if r]
+        if not winners:
+            break
+        cur = sx_parse(winners[0])
+    return sx_print(cur)
